@@ -15,6 +15,7 @@
 package trust
 
 import (
+	"regexp/syntax"
 	"strings"
 
 	"github.com/conduitio/conduit/pkg/foundation/cerrors"
@@ -60,7 +61,10 @@ func ValidateIdentityPattern(pattern string) error {
 	}
 
 	const wantPrefix = "github.com/"
-	prefix := literalPrefix(pattern[1 : len(pattern)-1]) // strip ^ and $
+	prefix, err := literalPrefix(pattern)
+	if err != nil {
+		return err
+	}
 	idx := strings.Index(prefix, wantPrefix)
 	if idx == -1 {
 		return cerrors.Errorf(
@@ -79,24 +83,28 @@ func ValidateIdentityPattern(pattern string) error {
 	return nil
 }
 
-// literalPrefix returns the longest leading run of s that is unambiguously
-// literal: a backslash-escaped character (\X) contributes its literal X —
-// treating \. as the literal dot every existing identity pattern uses
-// (e.g. "github\.com/"), not as a metacharacter — and the scan stops at
-// the first unescaped regex metacharacter.
-func literalPrefix(s string) string {
-	var b strings.Builder
-	for i := 0; i < len(s); i++ {
-		c := s[i]
-		if c == '\\' && i+1 < len(s) {
-			b.WriteByte(s[i+1])
-			i++
-			continue
-		}
-		if strings.ContainsRune(`.*+?()[]{}|^$`, rune(c)) {
-			break
-		}
-		b.WriteByte(c)
+// literalPrefix returns the literal text every match of pattern must start
+// with, taken from the PARSED expression rather than from a scan of its bytes,
+// so that it reflects what the regex engine will actually do: "\." is the
+// literal dot every existing identity pattern uses (e.g. "github\.com/"), a
+// class escape such as "\S" is not a literal, and a quantifier ("b/?", "b/*")
+// takes the character it applies to out of the prefix. The expression must be
+// a single ^...$ sequence: a top-level alternation ("^tight|.*$") or an
+// anchor that is not text-anchoring (inline (?m) anywhere before it) has no
+// such prefix and is refused. A case-folded literal ((?i)) is not a prefix
+// either.
+func literalPrefix(pattern string) (string, error) {
+	re, err := syntax.Parse(pattern, syntax.Perl) // the flags regexp.Compile uses
+	if err != nil {
+		return "", cerrors.Errorf("expectedIdentityPattern is not a valid regular expression: %q: %w", pattern, err)
 	}
-	return b.String()
+	if re.Op != syntax.OpConcat || len(re.Sub) < 2 ||
+		re.Sub[0].Op != syntax.OpBeginText || re.Sub[len(re.Sub)-1].Op != syntax.OpEndText {
+		return "", cerrors.Errorf(
+			"expectedIdentityPattern must be a single ^...$ sequence (no top-level alternation, no line-mode anchors): %q", pattern)
+	}
+	if lit := re.Sub[1]; lit.Op == syntax.OpLiteral && lit.Flags&syntax.FoldCase == 0 {
+		return string(lit.Rune), nil
+	}
+	return "", nil
 }
